@@ -109,6 +109,11 @@ class Fake:
                 rq.connection.setsockopt(socket.SOL_SOCKET, socket.SO_LINGER, b"\x01\x00\x00\x00\x00\x00\x00\x00")
             except Exception:
                 pass
+            try:
+                rq.connection.shutdown(socket.SHUT_RDWR)
+            except Exception:
+                pass
+            rq.close_connection = True
             rq.connection.close()
             return
         if f[0] == "cut":
@@ -122,6 +127,7 @@ class Fake:
                 rq.connection.shutdown(socket.SHUT_RDWR)
             except Exception:
                 pass
+            rq.close_connection = True
             rq.connection.close()
             return
 
